@@ -118,3 +118,22 @@ package slip
 //@ func slip.(*Lambda).Call
 //@   property C04 C08
 //@   no-store slip.DocArg.Default slip.DocArg.Name slip.FuncDoc.Args
+
+// ---------------------------------------------------------------------------
+// C13: package visibility.
+
+// export: an exported definition becomes visible in the using packages only
+// where the name is not defined there already (a package's own definition is
+// never replaced), and only the package's own tables otherwise change.
+//@ func slip.(*Package).Export
+//@   property C13
+//@   on-map-update vars keeps-users-own: $owner != obj ==> $was == nil
+//@   on-map-update funcs keeps-users-own: $owner != obj ==> $was == nil
+
+// use-package: the back edge (Users) is added exactly when the forward edge
+// (Uses) is: never for a package that is used already.
+//@ func slip.(*Package).Use
+//@   property C13
+//@   on-store Users not-yet-used: forall j :: (0 <= j && j < old(len(obj.Uses))) ==> old(obj.Uses[j]).Name != pkg.Name
+//@   on-store Uses not-yet-used: forall j :: (0 <= j && j < old(len(obj.Uses))) ==> old(obj.Uses[j]).Name != pkg.Name
+//@   loop rangeindex+1<len(obj.Uses): invariant scanned: forall j :: (0 <= j && j <= rangeindex) ==> old(obj.Uses[j]).Name != pkg.Name
